@@ -393,7 +393,7 @@ theorem push_arr_image (g f : Frm) (xs : List Bytes) (hp : g.payload = encElems 
   rw [e1, e2]
   simp [encode_toUInt8_zero]
 
-theorem elemsOK_snoc (xs : List Bytes) (b : Bytes) (h : ElemsOK xs) (hb : 0 < b.length ∧ b.length < 2 ^ 32) : ElemsOK (xs ++ [b]) := by
+theorem elemsOK_snoc (xs : List Bytes) (b : Bytes) (h : ElemsOK xs) (hb : b.length < 2 ^ 32) : ElemsOK (xs ++ [b]) := by
   intro x hx
   rcases List.mem_append.mp hx with h1 | h1
   · exact h x h1
@@ -401,7 +401,7 @@ theorem elemsOK_snoc (xs : List Bytes) (b : Bytes) (h : ElemsOK xs) (hb : 0 < b.
     rw [this]; exact hb
 
 theorem push_refines (cx : Ctx) (cur : Option Cell) (f : Frm) (hcur : CellWF cur) (hf : f.WF) (hop : f.op = PUSH)
-    (hb : 0 < f.payload.length ∧ f.payload.length < 2 ^ 32)
+    (hb : f.payload.length < 2 ^ 32)
     (hg : gate cx (mkCmd f) = true) (cur' : Option Cell)
     (h : processFrame cx cur (encode f) = .ok cur') :
     CellWF cur' ∧ absCell cur' = specApply (absCell cur) (.push f.payload) := by
